@@ -18,7 +18,9 @@ EXPLANATION = (
     "loop of Scheme.py visits its whole collection (no break/return), so "
     "no result depends on which element comes first. R03.5: decomposition "
     "and matching keep no state (no cache keyed by a spelling), and are "
-    "unchanged in normal form from their reviewed references.")
+    "unchanged in normal form from their reviewed references; the "
+    "library entry point GroupLibrary.GetDescriptors hands the structure "
+    "to the scheme as given (object or text).")
 NOT_DECIDED = ("RDKit's SMILES parsing, hydrogen handling and its choice "
                "of Kekule structure; ring perception order (the reason "
                "R03.3 is a known finding)")
